@@ -1372,6 +1372,79 @@ run_driver(Ctx& ctx, const Cfg& c, const shared_ptr<const ProjDataInfoCylindrica
           ok = false;
         }
     }
+  // --print-KL is a reporting option: the estimates must not depend on it (otherwise the reported KL values say nothing about
+  // the run a user makes without it, and the block / geo steps of a diagnosed run are not the ML steps of the statement).
+  // Second run of the same estimation with the reports off; every component file must hold the same numbers.
+  if (ok && do_KL && thrown.empty() && ((do_geo && do_block) || rng.coin(0.25)))
+    {
+      const std::string prefix2 = prefix + "_noKL";
+      std::string thrown2;
+      try
+        {
+          ML_estimate_component_based_normalisation(prefix2, measured, model, n_eff, n_it, do_geo, do_block, c.sym_per_block, false, false);
+        }
+      catch (const std::exception& e)
+        {
+          thrown2 = e.what();
+        }
+      auto numbers = [](const std::string& f, std::vector<double>& out) -> bool {
+        std::ifstream in(f);
+        if (!in)
+          return false;
+        std::string tok;
+        while (in >> tok)
+          {
+            // strip the list punctuation of STIR's array text format
+            std::string t;
+            for (char ch : tok)
+              if (ch != '{' && ch != '}' && ch != ',')
+                t += ch;
+            if (t.empty())
+              continue;
+            char* e = nullptr;
+            const double v = std::strtod(t.c_str(), &e);
+            if (e != t.c_str())
+              out.push_back(v);
+          }
+        return true;
+      };
+      std::vector<std::string> files;
+      for (int it = 1; it <= n_it; ++it)
+        {
+          for (int j = 1; j <= n_eff; ++j)
+            files.push_back("_eff_" + std::to_string(it) + "_" + std::to_string(j) + ".out");
+          files.push_back("_geo_" + std::to_string(it) + ".out");
+          files.push_back("_block_" + std::to_string(it) + ".out");
+        }
+      for (const std::string& f : files)
+        {
+          std::vector<double> a, b;
+          const bool ha = numbers(prefix + f, a), hb = numbers(prefix2 + f, b);
+          if (!ha && !hb)
+            continue;
+          bool same = ha == hb && a.size() == b.size();
+          size_t at = 0;
+          for (size_t i = 0; same && i < a.size(); ++i)
+            if (!(std::fabs(a[i] - b[i]) <= 1e-4 * (std::fabs(a[i]) + std::fabs(b[i])) + 1e-12))
+              {
+                same = false;
+                at = i;
+              }
+          if (!same)
+            {
+              ctx.violation("driver:estimates-depend-on-the-print-KL-option",
+                            vf::fmt("%s: with KL reports %s, without %s (do_geo %d, do_block %d, %d eff iterations, %d outer; exception without reports: '%s')",
+                                    f.c_str(), ha && at < a.size() ? vf::fmt("entry %zu = %.9g", at, a[at]).c_str() : "missing",
+                                    hb && at < b.size() ? vf::fmt("%.9g", b[at]).c_str() : "missing", do_geo, do_block, n_eff, n_it, thrown2.c_str()));
+              ok = false;
+              break;
+            }
+          ctx.count("driver_component_files_compared_with_and_without_KL_reports");
+        }
+      ctx.count("driver_runs_repeated_without_KL_reports");
+      if (do_geo && do_block)
+        ctx.count("driver_runs_repeated_without_KL_reports_geo_and_block");
+    }
   // an outer iteration is complete when its last efficiency file and its geo and block files were written
   for (int it = 1; it <= n_it; ++it)
     {
